@@ -102,6 +102,17 @@ def _run(spec):
         out2 = iso.get_worker(SRC['plain'], False).call(dict(spec, twice=True), TIMEOUT)
         out2['asan_allocator_report'] = True
         return out2
+    if out['st'] == 'ok' and out.get('digest2') == out.get('digest'):
+        # AddressSanitizer's allocator fills fresh blocks with a constant, so a C++ temporary that is read before it is
+        # written gives the same answer twice there: repeat the pair of executions on the plain build, where glibc
+        # fills every block handed out with a byte that differs between the two (M_PERTURB)
+        out2 = iso.get_worker(SRC['plain'], False).call(dict(spec, twice=True), TIMEOUT)
+        if out2['st'] == 'ok' and out2.get('digest2') != out2.get('digest'):
+            out2['plain_build'] = True
+            return out2
+        if out2['st'] in ('signal', 'corrupt'):
+            out2['plain_build'] = True
+            return out2
     return out
 
 
